@@ -18,6 +18,8 @@ import (
 	e2wallet "github.com/wealdtech/go-eth2-wallet"
 	filesystem "github.com/wealdtech/go-eth2-wallet-store-filesystem"
 	e2wtypes "github.com/wealdtech/go-eth2-wallet-types/v2"
+	"google.golang.org/grpc/codes"
+	"google.golang.org/grpc/status"
 )
 
 // fakeContribution builds a genuine polynomial of the given number of coefficients and the share for id.
@@ -495,6 +497,67 @@ func c13Wire(run *evid.Run, cfg Cfg) {
 				cancel()
 			}
 		}
+	}
+	// Repeated failing exchanges on one link: the peer refuses the daemon's contribution with an RPC error, forty
+	// generations in a row.  Each of them ends with an error to whoever drives it (execute returns an error, not
+	// silence), the fortieth like the first, and leaves no account.
+	for k := 1; k <= 40 && run.NumViolations() == 0; k++ {
+		seq++
+		account := fmt.Sprintf("D/wire13-%d", seq)
+		witness := map[string]any{"wire": true, "leg": "reply", "fault": "error-reply", "account": account, "generation": k}
+		req := &pb.PrepareRequest{Account: account, Passphrase: []byte("pass"), Threshold: uint32(t)}
+		for _, id := range ids {
+			host, port, _ := strings.Cut(peers[id], ":")
+			var p uint32
+			fmt.Sscan(port, &p)
+			req.Participants = append(req.Participants, &pb.Endpoint{Id: id, Name: host, Port: p})
+		}
+		run.Eval(1)
+		ctx, cancel := call()
+		_, err := dkg.Prepare(ctx, req)
+		expired := ctx.Err() != nil
+		cancel()
+		if expired {
+			run.Violate(fmt.Sprintf("wire: prepare of generation %d was not answered within 20 s after %d generations whose contribution the peer refused", k, k-1), witness)
+			break
+		}
+		if err != nil {
+			run.Inconclusive("wire prepare failed: " + err.Error())
+			return
+		}
+		sec, vv := contribution("", daemonID)
+		ctx, cancel = call()
+		_, _ = dkg.Contribute(ctx, &pb.ContributeRequest{Account: account, Secret: sec, VerificationVector: vv})
+		cancel()
+		high.SetReply(func(*pb.ContributeRequest) (*pb.ContributeResponse, error) {
+			return nil, status.Error(codes.Internal, "contribution refused")
+		})
+		ctx, cancel = call()
+		_, xerr := dkg.Execute(ctx, &pb.ExecuteRequest{Account: account})
+		expired = ctx.Err() != nil
+		cancel()
+		if !d.Alive() {
+			run.Violate("wire: the daemon died when its peer refused a contribution: "+firstPanicLine(d.LogTail(30000)), witness)
+			return
+		}
+		if expired {
+			run.Violate(fmt.Sprintf("wire: the generation did not end with an error: execute number %d was not answered within 20 s when the peer refused the contribution (the %d before it were answered with an error)", k, k-1), witness)
+			break
+		}
+		if xerr == nil {
+			run.Violate("wire: execute succeeded on the daemon although its peer refused the contribution with an error", witness)
+		}
+		ctx, cancel = call()
+		cm, merr := dkg.Commit(ctx, &pb.CommitRequest{Account: account, ConfirmationData: Root32(3)})
+		cancel()
+		if (merr == nil && len(cm.GetPublicKey()) > 0) || holds(account) {
+			run.Violate("wire: a generation whose contribution exchange failed was committed or left an account on the daemon", witness)
+		}
+		run.Count("wire_refused_contribution_generations", 1)
+		run.Distinct(fmt.Sprintf("wire refused contribution: execute-error=%v commit-ok=%v", xerr != nil, merr == nil))
+		ctx, cancel = call()
+		_, _ = dkg.Abort(ctx, &pb.AbortRequest{Account: account})
+		cancel()
 	}
 	if run.Get("wire_fault_cases") == 0 || run.Get("wire_valid_generations") == 0 {
 		run.Inconclusive("the wire slice ran no fault case or no valid generation")
